@@ -153,6 +153,18 @@ MUTANTS = [
      "popped-non-whitespace"),
     ("keep-eof-any-comment", "C03", "src/formatters/general.rs",
      "        .all(|x| x.token_kind() == TokenKind::Whitespace);", "        .all(|x| x.token_kind() != TokenKind::SingleLineComment);", "eof-trivia-dropped kinds="),
+    ("directive-start-end-swapped", "C08", "src/context.rs",
+     "                formatting_disabled = true;\n            } else if line == \"stylua: ignore end\" {\n                formatting_disabled = false;",
+     "                formatting_disabled = false;\n            } else if line == \"stylua: ignore end\" {\n                formatting_disabled = true;",
+     "directive-effect"),
+    ("directive-literal-typo", "C08", "src/context.rs",
+     'if line == "stylua: ignore" {', 'if line == "stylua:ignore" {', "directive-literals"),
+    ("directive-disabled-only-without-range", "C08", "src/context.rs",
+     "        if self.formatting_disabled {\n            return FormatNode::Skip;", "        if self.formatting_disabled && self.range.is_none() {\n            return FormatNode::Skip;",
+     "disabled-region-not-skipped"),
+    ("directive-match-continues", "C08", "src/context.rs",
+     '                if line == "stylua: ignore" {\n                    return FormatNode::Skip;', '                if line == "stylua: ignore" {\n                    break;',
+     "directive-effect"),
     ("regex-drop-z", "C04", "src/formatters/general.rs",
      'r#"^[^\\n\\r"\'0-9\\\\abfnrtuvxz]$"#', 'r#"^[^\\n\\r"\'0-9\\\\abfnrtuvx]$"#', "escape-dropped=z"),
     ("group-line-distance", "C12", "src/sort_requires.rs",
